@@ -41,3 +41,87 @@ def make_eom(kind="toy1", params=None, TnFrac=0.6, M=40, N=5, errTol=1e-3, maxIt
 def vevs(o, Tplus, Tminus):
     th = o["thermo"]
     return th.freeEnergyLow(Tminus).fieldsAtMinimum, th.freeEnergyHigh(Tplus).fieldsAtMinimum
+
+
+# ---------------------------------------------------------------- detonation scan decision logic (Model.DetonScan)
+
+def scripted_detonation_scan(vmin, vmax, nMin, nMax, only, a, fs):
+    """Runs the REAL EOM.findWallVelocityDetonation on an object whose wallPressure / solveWall / nextStepDeton are scripted stubs
+    (installed from outside); all numbers dyadic so that float arithmetic is exact.  Returns the line Driver/DetonScanQ prints."""
+    from fractions import Fraction
+    from types import SimpleNamespace
+    import math
+    import WallGo.equationOfMotion as EM
+    from WallGo.results import ESolutionType
+    eom = EM.EOM.__new__(EM.EOM)
+    eom.nbrFields = 1
+    eom.thermo = SimpleNamespace(Tnucl=1.0)
+    eom.hydrodynamics = SimpleNamespace(vJ=float(vmin) / 2, template=SimpleNamespace(epsilon=0.25))
+    K = len(a) - 1
+    probes, brackets = [], []
+
+    def press(v):
+        j = math.floor((v - vmin) / (vmax - vmin) * K)
+        return float(a[min(max(j, 0), K)])
+
+    def wallPressure(vw, wallParams, *args, **kw):
+        p = press(vw)
+        probes.append((vw, p))
+        return (p, wallParams, None, None, None)
+
+    def solveWall(v1, v2, wallParams, r1=None, r2=None):
+        brackets.append((v1, v2))
+        return SimpleNamespace(solutionType="root")
+    eom.wallPressure, eom.solveWall = wallPressure, solveWall
+    it = iter(fs)
+
+    def nextStep(pos1, pos2, p1, p2, mean, std, tol, posMax, prob=0.05):
+        return pos2 + float(next(it, Fraction(1, 2))) * (posMax - pos2)
+    saved = EM.nextStepDeton
+    EM.nextStepDeton = nextStep
+    try:
+        res = EM.EOM.findWallVelocityDetonation(eom, float(vmin), float(vmax), None, nMin, nMax, 0.05, 0.01, bool(only))
+    finally:
+        EM.nextStepDeton = saved
+    if brackets:
+        label = "roots"
+    else:
+        t = res[0].solutionType
+        label = {ESolutionType.DEFLAGRATION_OR_RUNAWAY: "deflagrationOrRunaway", ESolutionType.DEFLAGRATION: "deflagration",
+                 ESolutionType.RUNAWAY: "runaway"}.get(t, str(t))
+        if res[0].wallVelocity is not None:
+            label += "+velocity"
+
+    def q(x):
+        f = Fraction(x)
+        return str(f.numerator) if f.denominator == 1 else f"{f.numerator}/{f.denominator}"
+    return label + " | " + " ".join(f"{q(x)}:{q(y)}" for x, y in brackets) + " | " + " ".join(f"{q(x)}:{q(y)}" for x, y in probes)
+
+
+def detonation_scan_params(r):
+    from fractions import Fraction
+    nMin = r.choice((3, 5, 9))
+    nMax = r.choice((9, 17, 33))
+    # vmax - vmin a power of two (and nMin-1, nMax-1, K too): every float operation of the real loop is then exact
+    vmin = Fraction(r.randint(40, 46), 64)
+    vmax = vmin + Fraction(r.choice((4, 8, 16)), 64)
+    only = r.choice((0, 1))
+    K = r.choice((4, 8, 16))
+    style = r.choice(("random", "neg-then-pos", "pos-then-neg", "all-pos", "all-neg", "with-zeros"))
+    vals = [Fraction(-2), Fraction(-1), Fraction(-1, 2), Fraction(1, 2), Fraction(1), Fraction(2)]
+    if style == "random":
+        a = [r.choice(vals) for _ in range(K + 1)]
+    elif style == "neg-then-pos":
+        k = r.randint(1, K)
+        a = [-r.choice(vals[3:]) for _ in range(k)] + [r.choice(vals[3:]) for _ in range(K + 1 - k)]
+    elif style == "pos-then-neg":
+        k = r.randint(1, K)
+        a = [r.choice(vals[3:]) for _ in range(k)] + [-r.choice(vals[3:]) for _ in range(K + 1 - k)]
+    elif style == "all-pos":
+        a = [r.choice(vals[3:]) for _ in range(K + 1)]
+    elif style == "all-neg":
+        a = [-r.choice(vals[3:]) for _ in range(K + 1)]
+    else:
+        a = [r.choice(vals + [Fraction(0), Fraction(0)]) for _ in range(K + 1)]
+    fs = [Fraction(r.randint(0, 8), 8) for _ in range(40)]
+    return style, (vmin, vmax, nMin, nMax, only, a, fs)
